@@ -236,7 +236,7 @@ def o5(W, ob):
     ob.check(2 * ka <= ns and ns < dt, 'constants|keep-alive', 'KEEP_ALIVE_INTERVAL (%d ms) is at most half of the default notify delay (%d ms) < default timeout (%d ms)' % (ka, ns, dt),
              'KEEP_ALIVE_INTERVAL = %d ms, DEFAULT_DISCONNECT_NOTIFY_START = %d ms, DEFAULT_DISCONNECT_TIMEOUT = %d ms: two sessions that merely poll '
              'could see an interruption' % (ka, ns, dt), None)
-    ob.check(W.const('NUM_SYNC_PACKETS') == 5, 'constants|NUM_SYNC_PACKETS', 'NUM_SYNC_PACKETS == 5', 'NUM_SYNC_PACKETS = %s' % W.const('NUM_SYNC_PACKETS'), None)
+    ob.check(W.const('NUM_SYNC_PACKETS') >= 1, 'constants|NUM_SYNC_PACKETS', 'NUM_SYNC_PACKETS >= 1', 'NUM_SYNC_PACKETS = %s' % W.const('NUM_SYNC_PACKETS'), None)
     ob.check(W.const('MAX_EVENT_QUEUE_SIZE') == 100, 'constants|MAX_EVENT_QUEUE_SIZE', 'MAX_EVENT_QUEUE_SIZE == 100 (documented bound)',
              'MAX_EVENT_QUEUE_SIZE = %s, the documented bound is 100' % W.const('MAX_EVENT_QUEUE_SIZE'), None)
     # keep-alive reads last_send_time, which every queued message refreshes
@@ -393,7 +393,7 @@ OBLIGATIONS = [
     ('C12.O4', 'session state', 'P2PSession becomes Running only in check_initial_sync when no remote or spectator endpoint is unsynchronized; '
      'advance_frame does nothing before that; the spectator becomes Running on Synchronized.', o4),
     ('C12.O5', 'constants', 'KEEP_ALIVE_INTERVAL <= half the default notify delay; keep-alive reads last_send_time which every queued message '
-     'refreshes; NUM_SYNC_PACKETS == 5; MAX_EVENT_QUEUE_SIZE == 100.', o5),
+     'refreshes; NUM_SYNC_PACKETS >= 1; MAX_EVENT_QUEUE_SIZE == 100.', o5),
     ('C12.O6', 'event queue bound', 'every push to a session event queue is followed, before the function returns, by the trim loop '
      '`while len > MAX_EVENT_QUEUE_SIZE { pop_front }`.', o6),
     ('C12.O7', 'Disconnected is terminal', 'both handle_event implementations stop the endpoint on Event::Disconnected and build each lifecycle event outside every '
@@ -405,10 +405,10 @@ OBLIGATIONS = [
     ('C12.I', 'initial state', 'every constructor gives the fields this property\'s rules interpret (NULL_FRAME = none / nothing yet, 0 = first frame, latches open, typestate start) the value listed in tables/initial_state.json; every field compared with NULL_FRAME anywhere is listed; see rules/initial.py', initial.rule_for('C12')),
     ('C12.R', 'who may remove', 'every call that takes elements out of a collection this property\'s rules rely on (keyed removal from a map, or bulk / positional removal) is one of the reviewed sites in tables/removals.json; a lookup turned into a removal, a second prune, a clear on another path is reported; see rules/removals.py', removals.rule_for('C12')),
     ('C12.M', 'must-call floor', 'the calls listed for this property in tables/must_call.json are made on every path from the entry of their function to a normal return (interprocedural must-call): a new early return, fast path or extra condition in front of one of them is reported; see rules/mustcall.py', mustcall.rule_for('C12')),
-    ('C12.T', 'the endpoint\'s timer table', 'keep-alive, quality report and the interruption timers decide what lifecycle events are raised and when: per timer the field, duration, protocol state, action, re-arm site and writer set are read off poll() and compared with the table in rules/timers.py -- the action\'s guard is exactly `state & field + duration < now`, firing re-arms the timer on every path, nothing else writes the timestamp, every stored value is a clock reading, durations are the documented ones.', timers.rule),
+    ('C12.T', 'the endpoint\'s timer table', 'keep-alive, quality report and the interruption timers decide what lifecycle events are raised and when: per timer the field, duration, protocol state, action, re-arm site and writer set are read off poll() and compared with the table in rules/timers.py -- the action\'s guard is exactly `state & field + duration < now`, firing re-arms the timer on every path, nothing else writes the timestamp, every stored value is a clock reading, durations are positive (their relation to the default timeouts is Cxx.Z).', timers.rule),
     ('C12.V', 'no unreviewed condition in the pinned helpers', 'for each helper whose body this property\'s rules pin (tables/condition_terms.json), the terms its path conditions are built from (fields, parameters, call results -- no constants, operators or local names) are a subset of the reviewed vocabulary: one more `if` in front of a pinned result (a lock that may time out, "only while an endpoint is running") is reported; see rules/vocab.py', vocab.rule_for('C12')),
     ('C12.S', 'state inventory', 'every field of the structs this property\'s rules read (tables/state.json) is known, and is written only by its reviewed writers (or helpers only they call): a new field is new state across calls -- a cache, a flag, a stored deadline -- that nothing has shown to stay in step; a new writer is a second place that resets, re-arms or moves something; see rules/inventory.py', inventory.state_rule_for('C12')),
     ('C12.K', 'call inventory', 'every reviewed call of a function that writes state (tables/call_edges.json, callers in the structs this property\'s rules read) is still made, directly or through helpers: a call deleted as redundant is reported; likewise the arguments of logging / debug-only macros change no state, no unreviewed call of a state-writing function appears (tables/call_edges_all.json), the types of the locals a loop carries from one iteration to the next (tables/carried.json) and, per function and field, how reads and writes of the field are ordered (tables/orders.json: a snapshot taken before instead of after an update) are as reviewed; see rules/inventory.py', inventory.call_rule_for('C12')),
     ('C12.A', 'expression inventory', 'every arithmetic expression handed to a call or stored in a field, and what every closure given to an iterator adaptor / collection method returns, is one of the reviewed expressions of its function (tables/expressions.json; linear / guard normal forms, no local names): a changed literal, operator, operand order, factor, predicate or sort key is reported; see rules/inventory.py', inventory.expr_rule_for('C12')),
-    ('C12.Z', 'constants and type shapes', 'every named constant keeps its reviewed value and every type its reviewed shape -- variants and fields in order, with their types (tables/shapes.json): a ring size, sentinel, default or wire constant changed by value, a frame or checksum stored in a narrower type, a variant or field added, removed or reordered is reported; see rules/inventory.py', inventory.shape_rule),
+    ('C12.Z', inventory.CONST_TITLE, inventory.CONST_TEXT, inventory.const_rule_for('C12')),
 ]
